@@ -67,6 +67,18 @@ def _zero_yerr_outside(rng):
     return None
 
 
+def _many_params(rng):
+    """at least four parameters (the registration loop is only exercised non-trivially from four on):
+    polynomial of degree 3-5 or a 4 / 5-parameter user model"""
+    if rng.random() < 0.3:
+        return fc.gen_curve_case(rng, model=rng.choice(["u_model4", "u_model5"]))
+    for _ in range(100):
+        c = fc.gen_poly_case(rng)
+        if c["model"] == "polynomial" and c["deg"] >= 3 and fc.well_posed_poly(c):
+            return c
+    return None
+
+
 def _cases(ctx, n):
     rng = ctx.rng
     out = []
@@ -77,7 +89,11 @@ def _cases(ctx, n):
             c = _zero_yerr_outside(rng)
             if c:
                 out.append(c)
-        elif r < 0.62:
+        elif r < 0.32:
+            c = _many_params(rng)
+            if c:
+                out.append(c)
+        elif r < 0.67:
             c = fc.gen_poly_case(rng)
             if fc.well_posed_poly(c):
                 out.append(c)
@@ -118,6 +134,10 @@ def correspondence(ctx):
         res.count("yerr:" + ("none" if c["yerr"] is None else "per-point" if isinstance(c["yerr"], list) else "common")
                   + (":zeros-outside-range" if c.get("pattern") else ""))
         r = obs["result"]
+        if "eval_exn" in r:
+            res.disagreements.append({"name": "evaluating fit_function / residuals raised " + r["eval_exn"],
+                                      "kind": "history" if origin["kind"] == "history" else "fit", "case": origin})
+            return
         flat = [r["scalar"], r["list"], r["array"], r["table"], r["residuals"], r["chi2"], r["pcorr"], r["getcorr"],
                 r["getcov"], r["printed"], obs["errs"], obs["params"]]
         kind = "history" if origin["kind"] == "history" else "fit"
@@ -196,6 +216,43 @@ def check_history_oracle(case):
     return None
 
 
+def check_one_covariance(params, errs, r, rec):
+    """uncertainties, reported matrix, registered correlations / covariances: all from ONE covariance matrix.
+    Returns (why or None, cov or None)"""
+    n = len(params)
+    raw = rec["polyfit"][-1] if rec["polyfit"] else rec["curve_fit"][-1] if rec["curve_fit"] else None
+    if raw is None:
+        # no fit routine was observed for this call: the one covariance matrix is read off the reported matrix
+        if not fc.finite([errs, r["pcorr"]]) or any(e <= 0 for e in errs):
+            return None, None
+        raw = {"popt": params, "pcov": [[r["pcorr"][i][j] * errs[i] * errs[j] for j in range(n)] for i in range(n)]}
+    cov = raw["pcov"]
+    if not fc.finite(cov) or len(cov) != n or any(cov[i][i] <= 0 for i in range(n)):
+        return None, None
+    if raw["popt"] != params:
+        return "result.params values {} differ from the fitted parameters {}".format(params, raw["popt"]), cov
+    for i in range(n):
+        if not close(errs[i], math.sqrt(cov[i][i]), 1e-12):
+            return "uncertainty of parameter {} is {!r}; sqrt(Cov[{}][{}]) = {!r}".format(
+                i, errs[i], i, i, math.sqrt(cov[i][i])), cov
+    for i in range(n):
+        for j in range(n):
+            want = cov[i][j] / math.sqrt(cov[i][i] * cov[j][j])
+            if not close(r["pcorr"][i][j], want, 1e-9, 1e-12):
+                return "reported correlation [{}][{}] is {!r}; Cov_ij / (sigma_i sigma_j) = {!r}".format(
+                    i, j, r["pcorr"][i][j], want), cov
+            if i != j and not close(r["getcorr"][i][j], want, 1e-9, 1e-12):
+                return ("get_correlation(param {}, param {}) of the {} fit parameters is {!r}; the reported correlation matrix has "
+                        "{!r} there (Cov_ij / (sigma_i sigma_j) = {!r})".format(i, j, n, r["getcorr"][i][j], r["pcorr"][i][j], want)), cov
+            if i != j and not close(r["getcov"][i][j], cov[i][j], 1e-9, 1e-12 * math.sqrt(cov[i][i] * cov[j][j])):
+                return "get_covariance(param {}, param {}) is {!r}; Cov[{}][{}] = {!r}".format(
+                    i, j, r["getcov"][i][j], i, j, cov[i][j]), cov
+            if "printed" in r and abs(r["printed"][i][j] - want) > 6e-4:
+                return "printed correlation [{}][{}] is {}; Cov_ij / (sigma_i sigma_j) = {!r}".format(
+                    i, j, r["printed"][i][j], want), cov
+    return None, cov
+
+
 def check_oracle(case, obs=None):
     if case["kind"] == "history":
         return check_history_oracle(case)
@@ -205,12 +262,27 @@ def check_oracle(case, obs=None):
     if obs.get("exn_type") == "RuntimeError":
         return None
     if obs["exn"] is not None:
+        part = obs.get("partial")
+        if part and fc.finite([part["params"], part["errs"], part["pcorr"], part["getcorr"], part["getcov"]]):
+            why, _ = check_one_covariance(part["params"], part["errs"], part, obs["rec"])
+            if why:
+                return why + " (building the result then raised {}: {})".format(obs.get("exn_type"), obs.get("exn_text"))
         return "fit raised {}: {}".format(obs.get("exn_type"), obs.get("exn_text"))
     r = obs["result"]
     model = case["model"]
     params, errs = obs["params"], obs["errs"]
     n = len(params)
-    if not fc.finite([params, errs, r["scalar"], r["list"], r["array"], r["residuals"], r["chi2"], r["band"]]):
+    if not fc.finite([params, errs, r["pcorr"], r["getcorr"], r["getcov"]]):
+        return "non-finite number in the fit result (parameters {} +/- {})".format(params, errs)
+    # one covariance matrix (first: it does not need the fitted function to be evaluated)
+    why, cov = check_one_covariance(params, errs, r, obs["rec"])
+    if why:
+        if "eval_exn" in r:
+            why += " (evaluating fit_function / residuals then raised {})".format(r["eval_exn"])
+        return why
+    if "eval_exn" in r:
+        return "evaluating fit_function / residuals / chi-squared of an in-domain fit raised {}".format(r["eval_exn"])
+    if not fc.finite([r["scalar"], r["list"], r["array"], r["residuals"], r["chi2"], r["band"]]):
         return "non-finite number in the fit result (parameters {} +/- {}, chi2 {})".format(params, errs, r["chi2"])
     # fit_function(x) = model(x; params), whichever way x is passed
     for i, x in enumerate(r["eval"]):
@@ -237,34 +309,8 @@ def check_oracle(case, obs=None):
     if not close(r["chi2"], chi2, 1e-9, 1e-9 * cscale):
         return ("chi-squared is {!r}; the sum of (residual/sigma_y)^2 over the {} points with sigma_y > 0 is {!r}"
                 .format(r["chi2"], sum(1 for p in pts if p[3] > 0), chi2))
-    # one covariance matrix
-    rec = obs["rec"]
-    raw = rec["polyfit"][-1] if rec["polyfit"] else rec["curve_fit"][-1] if rec["curve_fit"] else None
-    if raw is None:
-        # no fit routine was observed for this call: the one covariance matrix is read off the reported matrix
-        if not fc.finite([errs, r["pcorr"]]) or any(e <= 0 for e in errs):
-            return None
-        raw = {"popt": params, "pcov": [[r["pcorr"][i][j] * errs[i] * errs[j] for j in range(n)] for i in range(n)]}
-    cov = raw["pcov"]
-    if not fc.finite(cov) or any(cov[i][i] <= 0 for i in range(n)):
+    if cov is None:
         return None
-    if raw["popt"] != params:
-        return "result.params values {} differ from the fitted parameters {}".format(params, raw["popt"])
-    for i in range(n):
-        if not close(errs[i], math.sqrt(cov[i][i]), 1e-12):
-            return "uncertainty of parameter {} is {!r}; sqrt(Cov[{}][{}]) = {!r}".format(i, errs[i], i, i, math.sqrt(cov[i][i]))
-    for i in range(n):
-        for j in range(n):
-            want = cov[i][j] / math.sqrt(cov[i][i] * cov[j][j])
-            if not close(r["pcorr"][i][j], want, 1e-9, 1e-12):
-                return "reported correlation [{}][{}] is {!r}; Cov_ij / (sigma_i sigma_j) = {!r}".format(i, j, r["pcorr"][i][j], want)
-            if i != j and not close(r["getcorr"][i][j], want, 1e-9, 1e-12):
-                return ("get_correlation(param {}, param {}) is {!r}; the reported correlation matrix has {!r} "
-                        "(Cov_ij / (sigma_i sigma_j) = {!r})".format(i, j, r["getcorr"][i][j], r["pcorr"][i][j], want))
-            if i != j and not close(r["getcov"][i][j], cov[i][j], 1e-9, 1e-12 * math.sqrt(cov[i][i] * cov[j][j])):
-                return "get_covariance(param {}, param {}) is {!r}; Cov[{}][{}] = {!r}".format(i, j, r["getcov"][i][j], i, j, cov[i][j])
-            if abs(r["printed"][i][j] - want) > 6e-4:
-                return "printed correlation [{}][{}] is {}; Cov_ij / (sigma_i sigma_j) = {!r}".format(i, j, r["printed"][i][j], want)
     # the band: uncertainty of fit_function(x) = sqrt(g^T Cov g), g by finite differences of the reference model
     for i, x in enumerate(r["eval"]):
         g = fc.ref_grad(model, params, x)
@@ -291,7 +337,11 @@ def _fresh_cases(ctx):
             c = fc.gen_history(rng)
             if c:
                 yield c
-        elif r < 0.7:
+        elif r < 0.45:
+            c = _many_params(rng)
+            if c:
+                yield c
+        elif r < 0.75:
             c = fc.gen_poly_case(rng)
             if fc.well_posed_poly(c):
                 yield c
@@ -332,6 +382,9 @@ def search(ctx, suspects, budget):
             seen.add(sig)
             out.append(Violation(ID, "history" if small["kind"] == "history" else "fit", small, why))
     ctx.notes.append("oracle: {} fit results recomputed with numpy-free code".format(n))
+    # a mismatch between registered and reported correlations explains a later exception: report it first
+    out.sort(key=lambda v: 0 if v.what.startswith(("get_correlation", "get_covariance", "reported correlation")) else
+             1 if "raised" not in v.what else 2)
     return out
 
 
